@@ -89,7 +89,7 @@ impl<'a> StateMachine<'a> {
     //@before <<<let ParsedHunkHeader {>>>| let ghost h1 = self.painter.writer.hist(); assert(only_text_after(h1, h1)); assert(self.painter.output_buffer@ =~= Seq::<char>::empty()); assert(/* @C01:ehh.keeps.lines.step */ all_lines(&self.painter) =~= all_lines(&old(self).painter));
     //@before <<<write_line_of_code_with_optional_path_and_line_number( code_fragment,>>>| let ghost hb = self.painter.writer.hist(); let ghost expected_path = if self.plus_file@ == "/dev/null"@ { self.minus_file@ } else { self.plus_file@ };
     //@after <<<":", self.config, )?;>>>| assert(/* @C05,C14,C19:ehh.header.number.path.fragment */ self.painter.writer.hist() == hb || self.painter.writer.hist() == hb.push(Ev::Text(wloc_out(parsed_hunk_header.code_fragment@, parsed_hunk_header.line_numbers_and_hunk_lengths@.last().0, line@, expected_path), true)));
-    //@before <<<Ok(true)>>>| proof { assert(only_text_after(h1, self.painter.writer.hist())); lemma_hist_lines_only_text(h1, self.painter.writer.hist()); assert(self.painter.output_buffer@ =~= Seq::<char>::empty()); assert(/* @C01:ehh.keeps.lines.step */ all_lines(&self.painter) =~= all_lines(&old(self).painter)); }
+    //@before <<<Ok(>>>| proof { assert(only_text_after(h1, self.painter.writer.hist())); lemma_hist_lines_only_text(h1, self.painter.writer.hist()); assert(self.painter.output_buffer@ =~= Seq::<char>::empty()); assert(/* @C01:ehh.keeps.lines.step */ all_lines(&self.painter) =~= all_lines(&old(self).painter)); }
     //@ fn src/handlers/hunk_header.rs StateMachine::handle_pending_hunk_header_line spec=hunk_header.pending optional=1
 }
 
